@@ -2,6 +2,8 @@ import PyhmsVerif.Props.C01
 import PyhmsVerif.Props.C03
 import PyhmsVerif.Props.C08
 import PyhmsVerif.Props.C12Run
+import PyhmsVerif.Props.C02Log
+import PyhmsVerif.Props.C07Children
 /-!
 # C19 — a restored tree keeps satisfying the tree invariants
 
@@ -30,13 +32,16 @@ structure Good (L : Nat) (t : T) : Prop where
   observed : C04.Obs t
   logcov : C04.LogCov t
   elite : PairChain.Inv C12.elitePair t
+  evlog : C02.EvLog t
+  children : C07.ChildOk t
 
 /-- **one step from any good state gives a good state** -/
 theorem step_good {L : Nat} {t t' : T} {ev : Ev} (hlim : C08.HasLimit t.cfg L) (hg : Good L t)
     (h : step t ev = .ok t') : Good L t' :=
   ⟨C07.step_wf hg.wf h, C01.step_logInBox hg.inBox h, C03.step_count hg.count h, C08.step_inv hlim hg.limit h,
     C11.step_chain hg.chain h, C04.step_obs hg.observed h, C04.step_logcov hg.wf hg.logcov h,
-    PairChain.step_inv C12.elitePair_spec hg.elite h⟩
+    PairChain.step_inv C12.elitePair_spec hg.elite h, C02.step_evlog hg.wf hg.evlog h,
+    C07.step_childOk hg.wf hg.children h⟩
 
 /-- **C19 (continuation).**  From *any* state that satisfies the tree invariants — in
 particular a restored snapshot — every accepted continuation, of any length, ends in a state
@@ -61,7 +66,7 @@ theorem C19_reachable_good {cfg : Cfg} {stks : List (List Problem.Wrapper)} {roo
     (hi : init cfg stks rootEnv = .ok t0) (h : exec t0 evs = .ok t) : Good L t := by
   have h0 : Good L t0 := by
     refine ⟨C07.init_wf hi, C01.C01_run hi (evs := []) rfl, C03.C03_run hi (evs := []) rfl, (C08.init_inv L hi).1, ?_,
-      C04.init_obs hi, C04.init_logcov hi, PairChain.init_inv hi⟩
+      C04.init_obs hi, C04.init_logcov hi, PairChain.init_inv hi, C02.init_evlog hi, C07.init_childOk hi⟩
     refine ⟨C11.create_chain (by intro d hd; simp at hd) hi, ?_⟩
     intro q id done pending hpc
     have := (createDeme_effect hi).pc
